@@ -241,7 +241,7 @@ class Model:
             from .inventory import FUNCTIONS, MODULE_NAMES
         except ImportError:
             return
-        from .inline import MAX_ROUNDS, desugar_ifexp, desugar_match, dissolve_new_cm_classes, drop_absorbed_helpers, erase_new_namedtuples, inline_new_helpers, scalarise_local_dicts, unroll_new_tables, propagate_new_constants
+        from .inline import MAX_ROUNDS, desugar_ifexp, desugar_match, desugar_return_all_any, dissolve_new_cm_classes, drop_absorbed_helpers, erase_new_namedtuples, inline_new_helpers, scalarise_local_dicts, unroll_new_tables, propagate_new_constants
 
         if desugar_match(self):
             self._reindex()
@@ -279,6 +279,8 @@ class Model:
             self.absorbed = drop_absorbed_helpers(self, FUNCTIONS)
             if self.absorbed:
                 self._reindex()
+        if desugar_return_all_any(self):
+            self._reindex()
 
     def _reindex(self):
         self.functions.clear()
